@@ -58,6 +58,9 @@ type Reader struct {
 	// {1, half, all but one}: for frames too large to try every count
 	Coarse   bool
 	NoEndMix bool // never deliver data together with the end error
+	// MixEnd (chooser-free reader only): the last bytes are delivered
+	// together with the end error
+	MixEnd bool
 	// Pat, when set, replaces the chooser by a fixed periodic schedule:
 	// ZeroBefore zero-length reads, then one chunk of at most Chunk bytes,
 	// repeated (used for long deliveries with hundreds of idle reads).
@@ -132,6 +135,11 @@ func (r *Reader) Read(p []byte) (int, error) {
 	if r.C == nil {
 		copy(p, r.Data[r.Off:r.Off+m])
 		r.Off += m
+		if r.MixEnd && m == left {
+			// the last bytes arrive together with the end error
+			r.ended = true
+			return r.note(len(p), m, r.endErr())
+		}
 		return r.note(len(p), m, nil)
 	}
 	// build the menu
